@@ -53,7 +53,7 @@ func gen(t *rapid.T) Case {
 	o := progen.Opts{MaxPkgs: 2, MaxIfaces: 3, Avoid: map[string]bool{"srcpkg:mock": true, "pkg:mockp": true, "tparamname:mock": true, "tparamname:t": true},
 		MethodFilter: func(n string) bool { return testifyAPI[n] }}
 	mod := progen.Gen(t, o)
-	if rapid.Bool().Draw(t, "template-locals") {
+	if rapid.IntRange(0, 3).Draw(t, "template-locals") > 0 {
 		// parameters named like the template's own locals (ret, _mock, args, ...)
 		progen.HostileLocals(t, &mod, "testify")
 	}
